@@ -58,6 +58,8 @@ M = [
     ("C13-validate-trusts-source-id", "C13", "pycoin/coins/bitcoin/Tx.py", "            if the_tx.hash() != h:\n                raise KeyError(", "            if False:\n                raise KeyError("),
     ("C13-ignore-missing-invents-output", "C13", "pycoin/coins/bitcoin/Tx.py", "            elif ignore_missing:\n                unspents.append(None)", "            elif ignore_missing:\n                unspents.append(self.TxOut(0, b\"\"))"),
     ("C05-oneshot-reports-unsigned", "C05", "pycoin/coins/tx_utils.py", "        if not tx.is_solution_ok(idx):\n            raise SecretExponentMissing(", "        if idx > 0 and not tx.is_solution_ok(idx):\n            raise SecretExponentMissing("),
+    ("C15-load-nodes-loses-consumed-on-error", "C15", "pycoin/blockchain/ChainFinder.py", "        finally:\n            # if the iterator raises, what it yielded so far is registered: place it too,\n            # or it would be skipped as already known whenever it is sent again\n            if new_hashes:", "        finally:\n            pass\n        if True:\n            if new_hashes:"),
+    ("C15-lock-commits-before-persist", "C15", "pycoin/blockchain/BlockChain.py", '            newly_locked.append(item)\n            excluded.add(the_hash)\n        if self.did_lock_to_index_f:\n            # hand the entries over before touching any state: if storing them fails,\n            # the lock has not happened\n            self.did_lock_to_index_f(newly_locked, old_length)\n        self._locked_chain.extend(newly_locked)\n', '            newly_locked.append(item)\n            self._locked_chain.append(item)\n            excluded.add(the_hash)\n        if self.did_lock_to_index_f:\n            self.did_lock_to_index_f(newly_locked, old_length)\n'),
     ("C13-fee-ignored-in-allocation", "C13", "pycoin/coins/tx_utils.py", "coins_allocated = sum(tx_out.coin_value for tx_out in tx.txs_out) + fee", "coins_allocated = sum(tx_out.coin_value for tx_out in tx.txs_out)"),
     ("C14-odd-level-duplicates-first", "C14", "pycoin/merkle.py", "hashes.append(hashes[-1])", "hashes.append(hashes[0])"),
     ("C14-extra-hashes-check-removed", "C14", "pycoin/message/make_parser_and_packer.py", "    if len(hashes) > 0:\n        raise ValueError(\"extra hashes", "    if False:\n        raise ValueError(\"extra hashes"),
@@ -182,6 +184,14 @@ def main(a):
         by.setdefault(r["property"], []).append(r["status"] == "killed")
     print("kill table: " + ", ".join("%s %d/%d" % (p, sum(v), len(v)) for p, v in sorted(by.items())))
     out = os.path.join(ROOT, "selftest_mutants.json")
+    if only:
+        # a partial run updates the entries it re-ran and keeps the rest of the table
+        try:
+            prev = json.load(open(out))["results"]
+        except Exception:
+            prev = []
+        done = {r["id"] for r in results}
+        results = [r for r in prev if r["id"] not in done] + results
     json.dump({"wall_s": round(time.time() - t0, 1), "tier": a.tier, "budget": a.budget, "results": results}, open(out, "w"), indent=1)
     weak = [p for p, v in by.items() if sum(v) < 2 and len(v) >= 2]
     if weak:
